@@ -311,7 +311,15 @@ func run(pc *propCfg, id, tier string, seed uint64, budget, nw int, replayFile, 
 	for _, v := range viols {
 		kf := matchKnown(known, id, v.Key)
 		if kf != nil {
-			lines = append(lines, fmt.Sprintf("KNOWN-FINDING: property=%s %s [key=%s]", id, kf.What, v.Key))
+			l := fmt.Sprintf("KNOWN-FINDING: property=%s %s [key=%s]", id, kf.What, v.Key)
+			dup := false
+			for _, o := range lines {
+				dup = dup || o == l // one line per finding, however many build variants met it
+			}
+			if dup {
+				continue
+			}
+			lines = append(lines, l)
 			continue
 		}
 		nViol++
